@@ -427,6 +427,15 @@ func (rl *respDeserializer) getDouble(line string) (value respDouble, valid bool
 	return respDouble(value64), true
 }
 
+// map keys and set members must be hashable Go values: aggregates are not
+func respHashable(v respValue) bool {
+	switch v.data.(type) {
+	case respArray, respMap, respSet, respAttributeMap, respPush, respPairs:
+		return false
+	}
+	return true
+}
+
 func (rl *respDeserializer) getNextArray(count int) (value respArray, valid bool) {
 	// the declared count is client input: do not allocate by it
 	a := make(respArray, 0)
@@ -451,6 +460,10 @@ func (rl *respDeserializer) getNextMap(pairs int) (value respMap, valid bool) {
 			return
 		}
 		k = respNormalizeKey(k)
+		if !respHashable(k) {
+			valid = false
+			return
+		}
 		if v, valid = rl.getNextValue(); !valid {
 			return
 		}
@@ -470,6 +483,10 @@ func (rl *respDeserializer) getNextAttributeMap(pairs int) (value respAttributeM
 			return
 		}
 		k = respNormalizeKey(k)
+		if !respHashable(k) {
+			valid = false
+			return
+		}
 		if v, valid = rl.getNextValue(); !valid {
 			return
 		}
@@ -489,6 +506,10 @@ func (rl *respDeserializer) getNextSet(count int) (value respSet, valid bool) {
 			return
 		}
 		v = respNormalizeKey(v)
+		if !respHashable(v) {
+			valid = false
+			return
+		}
 		s[v] = struct{}{}
 	}
 
@@ -582,6 +603,10 @@ func (rl *respDeserializer) getNextDynamicMap() (value respMap, valid bool) {
 			return m, true
 		}
 		k = respNormalizeKey(k)
+		if !respHashable(k) {
+			valid = false
+			return
+		}
 		if v, valid = rl.getNextValue(); !valid {
 			return
 		}
@@ -603,6 +628,10 @@ func (rl *respDeserializer) getNextDynamicAttributeMap() (value respAttributeMap
 		}
 
 		k = respNormalizeKey(k)
+		if !respHashable(k) {
+			valid = false
+			return
+		}
 		if v, valid = rl.getNextValue(); !valid {
 			return
 		}
@@ -623,6 +652,10 @@ func (rl *respDeserializer) getNextDynamicSet() (value respSet, valid bool) {
 			return s, true
 		}
 		v = respNormalizeKey(v)
+		if !respHashable(v) {
+			valid = false
+			return
+		}
 		s[v] = struct{}{}
 	}
 }
